@@ -18,13 +18,21 @@ func newResponses(i *catalog.HTTPInteraction) (*Responses, Error) {
 	}
 
 	sortedResponses := make(map[responseCode][]*catalog.HTTPResponse)
+	codes := make([]responseCode, 0, len(i.Responses)) // in the order of the document
 	for idx, resp := range i.Responses {
 		rCode := responseCode(resp.Code)
+		if _, ok := sortedResponses[rCode]; !ok {
+			codes = append(codes, rCode)
+		}
 		sortedResponses[rCode] = append(sortedResponses[rCode], &i.Responses[idx])
 	}
 
 	r := make(Responses, 1)
-	for rc, respArr := range sortedResponses {
+	// Not by ranging over the map: when several codes cannot be converted, which
+	// failure is met first (an error, or a panic of the schema library) must not
+	// depend on the iteration order.
+	for _, rc := range codes {
+		respArr := sortedResponses[rc]
 		var err Error
 		var resp *ResponseObject
 
